@@ -41,7 +41,11 @@ def _gen_body(rng, ids, reqs, is_main, gl_positions):
         items.insert(rng.randint(0, len(items)), {
             't': 'req', 'pkg': pi, 'ugl': ugl, 'id': ids.next(),
             'form': rng.choice(['stmt', 'stmt', 'local', 'table', 'infunc',
-                                'arg'])})
+                                'arg', 'inif', 'inelse', 'inelseif',
+                                'incond', 'inshortif', 'inwhile', 'infor',
+                                'inforin', 'inrepeat', 'indo', 'callee',
+                                'index', 'binop', 'method', 'nested-table',
+                                'inlocalfunc', 'inanonfunc', 'ret-infunc'])})
     # game-loop function definitions at chosen positions
     for pos in gl_positions:
         gl = {'t': 'gl', 'name': rng.choice(GAME_LOOP), 'id': ids.next(),
@@ -195,6 +199,32 @@ def _item_text(sc, frm, it, lua_path_mode):
             return 'function fn_%d() return %s end' % (i, call)
         if f == 'arg':
             return 'mk_%d=type(%s)' % (i, call)
+        forms = {
+            'inif': 'if mk_0 then %s end',
+            'inelse': 'if mk_0 then mk_%d=%d else %%s end' % (i, i),
+            'inelseif': 'if mk_0 then mk_%d=%d elseif mk_1 then %%s end' % (
+                i, i),
+            'incond': 'if %s then mk_{i}={i} end'.replace('{i}', str(i)),
+            'inshortif': 'if (mk_0) %s',
+            'inwhile': 'while mk_0 do %s break end',
+            'infor': 'for q=1,2 do %s end',
+            'inforin': 'for k,v in pairs(mk_0) do %s end',
+            'inrepeat': 'repeat %s until true',
+            'indo': 'do %s end',
+            'callee': 'mk_{i}=%s.field'.replace('{i}', str(i)),
+            'index': 'mk_0[%s]={i}'.replace('{i}', str(i)),
+            'binop': 'mk_{i}={i}+#%s'.replace('{i}', str(i)),
+            'method': 'mk_{i}=%s:method({i})'.replace('{i}', str(i)),
+            'nested-table': 'mk_{i}={a={b={%s}}}'.replace('{i}', str(i)),
+            'inlocalfunc': 'local function lf_{i}() local z=%s end'.replace(
+                '{i}', str(i)),
+            'inanonfunc': 'mk_{i}=function() return %s end'.replace(
+                '{i}', str(i)),
+            'ret-infunc': 'function fn_{i}() if mk_0 then return %s end end'
+            .replace('{i}', str(i)),
+        }
+        if f in forms:
+            return forms[f] % call
     if t == 'bad':
         return it['text']
     raise core.HarnessError('item ' + t)
@@ -261,6 +291,7 @@ def render(sc, frm):
             sep = f['seps'][k]
             nxt = items[k + 1]
             if it['t'] in LINE_SCOPED or it['t'] == 'blank' or \
+                    (it['t'] == 'req' and it.get('form') == 'inshortif') or \
                     nxt['t'] == 'blank' or it['t'] == 'ret':
                 sep = '\n'
             # a call statement followed by `(`-less items is fine; a space
@@ -418,7 +449,8 @@ def execute(sc):
         os.chdir(cwd)
         main_arg = 'main.lua' if sc.get('cwd') == 'base' else w.p(
             'proj/main.lua')
-        argv = ['build', w.p(out_rel), '--lua', main_arg]
+        argv = list(sc.get('global_flags') or []) + [
+            'build', w.p(out_rel), '--lua', main_arg]
         if how == 'arg':
             argv += ['--lua-path', lp_value]
         table, err = model_traverse(sc2, w, lp_value)
@@ -782,6 +814,8 @@ def generate(rng, prop, tier, index):      # noqa: F811
         sc['warmup'] = True
     if index % 5 == 4:
         sc['rebuild'] = True
+    sc['global_flags'] = [[], [], [], ['--debug'], ['-q']][index % 5] \
+        if index % 3 == 0 else []
     return sc
 
 
@@ -830,6 +864,8 @@ def shrink(sc):
         yield dict(sc, warmup=False)
     if sc.get('rebuild'):
         yield dict(sc, rebuild=False)
+    if sc.get('global_flags'):
+        yield dict(sc, global_flags=[])
 
 
 def _with_file(sc, frm, nf):
